@@ -398,7 +398,10 @@ printf("debug> macros_parse() name=%s parens_flag=%d\n", name, parens);
   {
     while (true)
     {
+      // A parameter may have the name of a label of the program.
+      asm_context->ignore_symbols = 1;
       token_type = tokens_get(asm_context, token, TOKENLEN);
+      asm_context->ignore_symbols = 0;
 #ifdef DEBUG
 printf("debug> macros_parse() param %s\n", token);
 #endif
